@@ -1112,6 +1112,15 @@ impl World {
             slot.conn.poll_transmit(now, maxdg, &mut buf)
         });
         let Some(Some(t)) = r else {
+            // nothing to send; a poll may still have armed a timer (pacing): record that
+            if r.is_some() {
+                let post = self.probe(n, c);
+                if post["tm"] != pre["tm"] {
+                    let tnow = self.now_us;
+                    self.trace
+                        .push(json!({"ev":"TxNone","t":tnow,"n":n,"c":c,"pre":pre,"post":post}));
+                }
+            }
             return false;
         };
         let post = self.probe(n, c);
@@ -1636,13 +1645,18 @@ impl World {
     pub fn finish(&mut self) {
         let t = self.now_us;
         let eps: Vec<Value> = (0..self.nodes.len()).map(|n| self.ep_probe(n)).collect();
+        let epoch = self.epoch;
         let lost: Vec<Value> = self
             .nodes
             .iter()
             .flat_map(|n| {
                 n.conns
                     .iter()
-                    .map(move |(c, s)| json!({"n":n.idx,"c":c,"lost":s.lost,"drained":s.drained}))
+                    .map(move |(c, s)| {
+                        let p = s.conn.verif_probe(epoch);
+                        json!({"n":n.idx,"c":c,"lost":s.lost,"drained":s.drained,
+                            "ifb":p.path.in_flight_bytes,"ifae":p.path.in_flight_ack_eliciting,"st":p.state})
+                    })
             })
             .collect();
         self.trace.push(json!({"ev":"End","t":t,"steps":self.steps,"eps":eps,"conns":lost,
